@@ -75,9 +75,15 @@ static bool guard_queue_check(const struct cmi_heap_tag *a,
     if (a->isortkey > b->isortkey) {
         return true;
     }
+    if (a->isortkey < b->isortkey) {
+        return false;
+    }
 
     if (a->dsortkey < b->dsortkey) {
         return true;
+    }
+    if (a->dsortkey > b->dsortkey) {
+        return false;
     }
 
     if (a->key < b->key) {
